@@ -215,14 +215,23 @@ def hdr_str(h):
 
 
 # --------------------------------------------------------------------------------------------- SigEpoch (stateful C32/C33)
-def epoch_phase(ctx, binary, which, cfg, test, inp_extra, design_cfg=None):
+def epoch_phase(ctx, binary, which, cfg, test, inp_extra, design_cfg=None, asfound_cfg=None):
     """TLC enumerates all histories of MaxSteps header steps (spec/SigEpoch.tla); every maximal history is replayed on the
     real code.  Returns (histories, steps, unsound) or None."""
     jobs = [lambda: run_tlc_rows(ctx, "SigEpoch_MC", cfg)]
     if design_cfg:
         jobs.append(lambda: run_tlc_plain(ctx, "SigEpoch_MC", design_cfg, "design: EpochSound"))
+    if asfound_cfg:
+        # model self-test: with the named deviation of a repaired finding switched ON, TLC must find the counterexample
+        jobs.append(lambda: ctx.tlc("SigEpoch_MC", cfg=asfound_cfg, timeout=900))
     res = parallel(*jobs)
     r, rows = res[0]
+    if asfound_cfg:
+        af = res[-1]
+        if af.status != "violation" or af.violated != "EpochSound":
+            ctx.infra("SigEpoch self-test: %s (deviation on) should violate EpochSound, got status=%s violated=%s" % (asfound_cfg, af.status, af.violated))
+        else:
+            ctx.log("TLC %s (as-found deviation on): counterexample to EpochSound found, as expected" % asfound_cfg)
     if not r:
         return None
     paths = [[{"op": s[0], "height": s[1], "signers": sorted(s[2]), "cfg": sorted(s[3]), "lastcfg": s[4], "acc": s[5], "ok": s[6],
@@ -252,7 +261,7 @@ def epoch_phase(ctx, binary, which, cfg, test, inp_extra, design_cfg=None):
             if real and not s["ok"]:
                 unsound += 1
                 if which == "ledger":
-                    key = ("%s:unsound-accept:superseded-configuration-via-LastConfigBlockNum" % s["op"]) if (s["stale"] or stale_before) and s["acc"] \
+                    key = ("%s:unsound-accept:superseded-configuration-via-LastConfigBlockNum" % s["op"]) if (s["stale"] or stale_before) \
                         else "%s:unsound-accept:peer-set-not-in-force" % s["op"]
                 else:
                     key = "SyncBlockHeader:unsound-accept:peer-set-not-in-force"
@@ -263,7 +272,7 @@ def epoch_phase(ctx, binary, which, cfg, test, inp_extra, design_cfg=None):
                 if not (real and not s["ok"]):
                     drift.append((desc, "real=%s model=%s err=%s" % (real, s["acc"], o["err"][i])))
                 break                      # the real state has left the model's history
-            if s["acc"] and s["stale"]:
+            if real and s["stale"]:
                 stale_before = True
     if drift:
         ctx.infra("MODEL-DRIFT (SigEpoch %s): %d histories, e.g. %s" % (which, len(drift), drift[:2]))
